@@ -4,6 +4,7 @@
  * show), 3 econf_cat, 4 replace_str.
  * The object is a ghost: up to 2 sections with up to 2 keys each plus up to
  * 2 group-less keys, every count symbolic. */
+#define VERIF_SHIM_PRINTF 1
 #include "common.h"
 #include "asprintf_shim.h"
 #include "libeconf_ext.h"
